@@ -285,6 +285,7 @@ same("C11", "ti-dtype-any-parameter", E + "Models/Elastic/_laws.py", "        su
 mut("C09", "phasefield-volume-load-default", E + "Simulations/_phasefield.py", "    def add_volumeLoad(\n        self,\n        nodes: _types.IntArray,\n        values: list,\n        unknowns: list[str],\n        problemType=ProblemTypes.elastic,", "    def add_volumeLoad(\n        self,\n        nodes: _types.IntArray,\n        values: list,\n        unknowns: list[str],\n        problemType=None,", "R9.14")
 mut("C15", "weakforms-velocity-unchecked", E + "Simulations/_weakforms.py", '            a = results["a"] if "a" in results else np.zeros_like(u)', '            a = results.get("a")', "R15.14")
 mut("C05", "scheme-stored-before-validation", E + "Simulations/_simu.py", "        assert dt > 0, \"Time increment must be > 0\"\n\n        # nothing is stored before the arguments are accepted\n        self.__algo = AlgoType.parabolic\n", "        self.__algo = AlgoType.parabolic\n        assert dt > 0, \"Time increment must be > 0\"\n", "R5.13")
+mut("C08", "projector-every-detection", E + "FEM/_mesh.py", "        np.asarray(nodes, dtype=int)[owner_n[np.asarray(nodes, dtype=int)] == element]\n", "        np.asarray(nodes, dtype=int)\n", "R8.17")
 mut("C18", "op-no-geometric-tangent", E + "FEM/Operators/NonLinear.py", "    return A_lin + A_geo, residual_e", "    return A_lin, residual_e", "R18.12")
 mut("C18", "op-reorder-transposes", E + "FEM/Operators/NonLinear.py", "            reordered[i] = array[:, ri, rj]", "            reordered[i] = array[:, rj, ri]", "R18.12")
 mut("C18", "op-kv-tangent-swapped", E + "FEM/Operators/NonLinear.py", "    A_mat = material.eta * einsum(subscripts, wJ_e_pg, B_e_pg, Beta_e_pg)", "    A_mat = material.eta * einsum(subscripts, wJ_e_pg, Beta_e_pg, B_e_pg)", "R18.12")
